@@ -145,12 +145,6 @@ theorem own_uid_dropped (s : State) (id code : Nat) : next s (.response selfUid 
 
 /-- the hypotheses are satisfiable by a non-trivial run: two concurrent surveys over 2 nodes; a
 duplicate, a foreign-id and a cross-addressed response; survey 0 completes, survey 1 hits its deadline. -/
-def exampleRun : List Label :=
-  [.begin 2, .spawn 0, .publish 0 true, .begin 2, .spawn 1, .publish 1 true,
-   .response 1 1 7, .response 1 1 8, .response 1 9 9, .response 1 2 5,
-   .collect 0, .collect 0, .collect 1, .localReply 0 3, .collect 0, .ret 0,
-   .ctxDone 1, .collExit 1, .ret 1, .response 1 1 6]
-
 example :
     ∃ s, run init exampleRun = some s ∧ Reach s ∧
       (s.surveys.map (fun sv => (sv.main, sv.retErr, sv.returned.map (fun r => (r.uid, r.code))))) =
